@@ -85,6 +85,21 @@ CLAIMED = {
          "No counterexample (other than the listed known findings) among generated histories of up to 47 operations over 13 paths in nested directories (open with all 64 flag combinations, positional and cursor reads/writes, seek, set_len, rename, remove, create_dir(_all), remove_dir(_all), read_dir, metadata, syncs and clock advances at every position, three front-ends mixed, two hosts with identical names): every result (data, counts, positions, lengths, entry sets, Ok/Err and unambiguous error kinds) and every periodic full scan (existence, kind, length, content, read_dir as a set) equalled the reference model, scans before and after every sync and clock advance were identical, and the other host's tree never changed. The reference model itself was validated against the real Linux filesystem with the same interpreter.",
          "All fault probabilities 0; a handle is only used while its path still names the inode it was opened on; objects touched by a known finding (F-C10-1..13, path-keyed pending log) are tainted and excluded from comparison while that finding is listed as known, and each finding is asserted by its committed probe replays.",
          "DESIGN.md §6 C10"),
+ "C13": ("exploration",
+         "model-based property testing (proptest) on a controller-style NetWire driver: generated action lists (listen, connect, cancel, accept, write, read, shutdown, drop, listener drop, wire rounds with per-packet fates) against a connection/backlog model, with the H2 table-count hook for reclamation and H3 to shrink the ephemeral range",
+         "No counterexample (other than the listed known findings) among generated action lists on two dual-stack hosts with backlogs from 1, ephemeral ranges of 1-5 ports, delays, reordering and drops within the retransmit budget: connects succeeded only when a listener existed and were refused when none did, never exceeded the backlog, timed out only against a full backlog; accept handed out each established connection exactly once with mirrored addresses and intact byte prefixes; close/drop/cancel/listener-drop actions met peers in all eight handshake and close states; and after both sides had closed, at quiescence and at the end, the socket table, binding index and connection index held exactly the objects still owned by the script, every used port could be bound again and every used 4-tuple reconnected.",
+         "Connect liveness is judged only on loss-free runs with bounded holds over fresh 4-tuples; residues attributed by the model to known findings F-C13-1..5 are tolerated and counted while those are listed as known, and each is asserted by its probe replay.",
+         "DESIGN.md §6 C13"),
+ "C17": ("exploration",
+         "model-based property testing (proptest): generated bind/connect/listen/close sequences on 2-3 multi-address dual-stack hosts stepped in lock-step with a socket-table model, followed by an exhaustive probe matrix (a tagged datagram and a TCP connect from every host to every address x port x protocol)",
+         "No counterexample among generated sequences: every bind returned Ok / AddrInUse / AddrNotAvailable exactly as the socket-table model says (same address or wildcard conflict per family+protocol+port, locality), port 0 yielded a port unused at every local address and failed only when the (shrunk) range was exhausted, close freed bindings (table counts equal the model after every step), and every probe datagram and connect of the full matrix reached exactly the socket the model names — a connected UDP socket only from its peer, an established connection before a listener, unknown destinations nobody — and no other socket on any host.",
+         "SO_REUSEADDR/SO_REUSEPORT are not reachable through the public API (set_option is unimplemented for them), so an exact-address and a wildcard socket of one (family, protocol, port) cannot coexist and the exact-before-wildcard clause is not observable; hostname addressing is not exercised.",
+         "DESIGN.md §6 C17"),
+ "C19": ("exploration",
+         "bounded-exhaustive enumeration of small rule chains (verdict x install point x guard drop position) plus property-based random chains and traffic, on a primitive scheduler (egress_all/evaluate/deliver) and inside fixture::ClientServer / fixture::lo, checked against a chain model over an execution-ordered log of rule invocations, sends and receipts",
+         "Every chain of up to 3 (4 thorough) constant rules was enumerated over install points and guard-drop positions, and random chains of 0-6 table-driven (partly stateful) rules installed through Net::rule, EnterGuard::rule and turmoil_net::rule, ended by drop / forget / mem::forget / alias guards, with UDP and TCP traffic including loopback and own-address packets: each non-loopback packet was decided by exactly the first non-Pass rule in installation order, no rule was consulted after a verdict or after its guard was dropped, no installed rule was skipped, loopback packets were never shown to a rule; inside the fixtures Deliver(d) datagrams arrived within [T_e+d, T_e+d+1 tick], equal deadlines kept emission order, zero-delay and Pass packets arrived in their evaluation tick, and dropped packets never arrived.",
+         "The timing half is asserted for UDP datagrams inside the fixtures (tokio's paused timer is 1 ms granular); own-address traffic is treated as loopback only when no rule saw it (the docs promise folding for loopback only).",
+         "DESIGN.md §6 C19"),
 }
 
 PENDING_REASON = "check not built yet in this round (planned, see DESIGN.md §6); not claimed until its check exists and has been shown silent on the unchanged tree"
